@@ -26,6 +26,7 @@
 #include <fcntl.h>
 #include <signal.h>
 #include <sys/stat.h>
+#include <execinfo.h>
 #include "libvpsc/assertions.h"
 
 #if defined(__SANITIZE_ADDRESS__)
@@ -162,6 +163,12 @@ static void on_fatal(int sig) {
     char b[500];
     int n = snprintf(b, sizeof b, "{\"t\":\"summary\",\"partial\":true,\"evaluations\":%ld,\"held\":%ld,\"violated\":%ld,\"inconclusive\":%ld,\"nontrivial\":%ld,\"c15\":%ld}\n{\"t\":\"crash\",\"case\":%ld,\"stage\":\"%s\",\"signal\":%d}\n", g_cnt[0], g_cnt[1], g_cnt[2], g_cnt[3], g_cnt[4], g_cnt[5], g_curcase, (const char *)g_stage, sig);
     if (g_outfd >= 0) write_all(g_outfd, b, (size_t)n);
+    {   // raw return addresses of the faulting stack (the driver symbolises them; the binary is linked -no-pie)
+        void *bt[40]; int k = backtrace(bt, 40); char line[1200]; int m = snprintf(line, sizeof line, "{\"t\":\"backtrace\",\"case\":%ld,\"signal\":%d,\"addrs\":[", g_curcase, sig);
+        for (int i = 0; i < k && m < 1100; i++) m += snprintf(line + m, sizeof line - (size_t)m, "%s\"%p\"", i ? "," : "", bt[i]);
+        m += snprintf(line + m, sizeof line - (size_t)m, "]}\n");
+        if (g_outfd >= 0) write_all(g_outfd, line, (size_t)m);
+    }
     signal(sig, SIG_DFL);
     raise(sig);
 }
